@@ -432,7 +432,14 @@ func genLifecycle(r *Rng, idx int, tier string, step func(op string) string) {
 	}
 	// sometimes the data is already on disk: the first start verifies it and the torrent is complete at once
 	seeded := r.Chance(25)
-	o := step(fmt.Sprintf("new pl=%d files=%s seq=0 cfg.AllowedFastSet=0 stopafter=%s trackers=%d seeded=%s", l.pl, l.filesArg(), b01(stopAfter), ntrk, b01(seeded)))
+	// sometimes addresses of peers that never answer the handshake are added while the dial limit is small: one
+	// outgoing handshake stays pending and the other addresses stay queued until the torrent stops
+	dialHold := !seeded && r.Chance(20)
+	dialCfg := ""
+	if dialHold {
+		dialCfg = fmt.Sprintf(" cfg.MaxPeerDial=%d", r.Pick(1, 1, 2))
+	}
+	o := step(fmt.Sprintf("new pl=%d files=%s seq=0 cfg.AllowedFastSet=0 stopafter=%s trackers=%d seeded=%s%s", l.pl, l.filesArg(), b01(stopAfter), ntrk, b01(seeded), dialCfg))
 	if !strings.HasPrefix(o, "ok") {
 		return
 	}
@@ -503,6 +510,25 @@ func genLifecycle(r *Rng, idx int, tier string, step func(op string) string) {
 			do("verify")
 			if ntrk > 0 {
 				do("waitstop")
+			}
+		case roll < 56 && dialHold && st == "Downloading":
+			// (with a connected peer, if there is none yet: closing it at the stop makes room for another dial)
+			hasLive := false
+			for _, p := range peers {
+				if !p.closed {
+					hasLive = true
+				}
+			}
+			if !hasLive && nextK <= 8 {
+				attach()
+			}
+			do(fmt.Sprintf("dialhold n=%d", r.Range(2, 3)))
+			if r.Chance(70) {
+				do("stop")
+				if ntrk > 0 {
+					do("waitstop")
+				}
+				do("obs")
 			}
 		case roll < 53 && ntrk > 0 && ntrk < 4 && (st == "Stopped" || st == "Downloading" || st == "Seeding"):
 			do("addtracker")
